@@ -455,6 +455,9 @@ P_C19_GoAwayDiscardsOutput ==
 P_C20_ResetRacesAreStreamErrors ==
   (OneInput /\ F1.t \in {"HEADERS", "DATA", "WU", "RST"}
      /\ ClosedBy(Pre, F1.sid) = "SRST" /\ Pre.conn # "CLOSED" /\ Pre.pend = <<>>
+     \* the memory of closed streams is bounded (C27): a HEADERS frame first makes the connection collect its closed streams, and
+     \* the record of this reset must survive that (once it has been forgotten, no library can tell a race from a violation)
+     /\ (F1.t = "HEADERS" => ClosedBy(Cleanup(Pre), F1.sid) = "SRST")
      \* both before and after the closed stream's record has been collected
      /\ (Has(Pre, F1.sid) => Pre.streams[F1.sid].st = "CLOSED")
      /\ (F1.t = "DATA" => (FclOf(F1) <= Pre.iw.cur /\ FclOf(F1) <= Pre.mif))
